@@ -37,6 +37,8 @@ void vp_file_set_len(unsigned long len);
 struct _IO_FILE; struct _IO_FILE* vp_fopen_read(void); struct _IO_FILE* vp_fopen_write(void);
 const char* vp_file_name(void);             // name that fopen() maps to the model file
 int vp_file_is_open(void);
+void* vp_ostream(void);                      // a std::ostream writing the model file from its start (rt module 'ios'); call vp_ostream_done() before reading the file back
+void vp_ostream_done(void);
 void* vp_istream(void);                      // a std::istream over the model file (rt module 'ios'); use *static_cast<std::istream*>(vp_istream())   // concrete shape parameter k of the query
 }
 // symbolic int in [lo,hi]; one nondet call per statement so that evaluation order is fixed
